@@ -3,6 +3,7 @@ package biscuit
 import (
 	"errors"
 	"fmt"
+	"math"
 	"reflect"
 
 	"github.com/biscuit-auth/biscuit-go/v2/datalog"
@@ -73,6 +74,11 @@ func tokenIDToProtoIDV2(input datalog.Term) (*pb.TermV2, error) {
 			Content: &pb.TermV2_String_{String_: uint64(input.(datalog.String))},
 		}
 	case datalog.TermTypeDate:
+		// dates are unsigned seconds since the UNIX epoch: an earlier instant
+		// converted from a time.Time has wrapped around and cannot be encoded
+		if uint64(input.(datalog.Date)) > math.MaxInt64 {
+			return nil, errors.New("biscuit: failed to convert token ID to proto ID: date is before the UNIX epoch")
+		}
 		pbId = &pb.TermV2{
 			Content: &pb.TermV2_Date{Date: uint64(input.(datalog.Date))},
 		}
